@@ -695,10 +695,498 @@ def rule_step(repo):
     return r
 
 
-RULES = [rule_rdy, rule_count, rule_step]
+# ---------------------------------------------------------------------------
+# sibling agreement (no hand-written specification involved)
+def _majority(table):
+    """table: name -> value; returns (majority value or None on a tie, names that deviate)"""
+    counts = {}
+    for v in table.values():
+        counts[v] = counts.get(v, 0) + 1
+    best = sorted(counts.items(), key=lambda kv: -kv[1])
+    if len(best) > 1 and best[0][1] == best[1][1]:
+        return None, sorted(table)
+    return best[0][0], sorted(k for k, v in table.items() if v != best[0][0])
 
-MUTANTS = []
-EQUIV = []
-LEVEL_TEXT = ""
-LEVEL_NOTE = ""
-TECHNIQUE = ""
+
+def rule_siblings(repo):
+    r = RuleResult('R-C17-siblings', "the sibling copies agree with each other: the n-entry up_reg blocks as functions of "
+                                     "(state, reset, enq_xfer, deq_xfer), the 1-entry queues of one kind across the interface "
+                                     "families as canonical transition relations (full, enq_xfer, deq_xfer) -> full'")
+    recs = analyse_all(repo)
+    # (1) n-entry controllers with the count-register encoding
+    ctrls = [x for x in recs if x['t']['level'] == 'ctrl' and x['t']['enc'] is EncCount]
+    tables = {}
+    for x in ctrls:
+        name = (x['t']['rel'], x['t']['cls'])
+        if x['err'] or x['nl'] is None:
+            r.bad(x['mod'], x['t']['cls'], 'elaboration', f"n={x['n']}: {x['err']}", x['cls'].lineno)
+            continue
+        nl, enc, n = x['nl'], x['enc'], x['n']
+        ports = x['fam'].ctrl
+        ex_s, dx_s = nl.lookup(ports['enq_xfer']), nl.lookup(ports['deq_xfer'])
+        for st in enc.states():
+            for reset, ex, dx in itertools.product((0, 1), repeat=3):
+                sim = Sim(nl, st.regs, {}, reset)
+                sim.val[nl.find(ex_s)] = BV(ex, 1)
+                sim.val[nl.find(dx_s)] = BV(dx, 1)
+                try:
+                    nxt = sim.step()
+                    val = (nxt[enc.head].v, nxt[enc.tail].v, nxt[enc.count].v)
+                except ModelFault as e:
+                    val = ('fault', str(e))
+                r.evaluations += 1
+                tables.setdefault((n, st.head, st.count, reset, ex, dx), {})[name] = val
+    deviating = {}
+    for key, tab in sorted(tables.items()):
+        maj, odd = _majority(tab)
+        for name in odd:
+            deviating.setdefault(name, (key, tab[name], maj))
+    for x in {(x['t']['rel'], x['t']['cls']): x for x in ctrls if not x['err']}.values():
+        name = (x['t']['rel'], x['t']['cls'])
+        blk = ', '.join(sorted({b.name for b in x['nl'].blocks if b.kind == 'ff'}))
+        cons = f"update_ff {blk} as a function of (head, tail, count, reset, enq_xfer, deq_xfer)"
+        if name in deviating:
+            (n, h, c, reset, ex, dx), got, maj = deviating[name]
+            r.bad(x['mod'], x['t']['cls'], cons,
+                  f"n={n} head={h} count={c} reset={reset} enq_xfer={ex} deq_xfer={dx}: (head', tail', count') = {got}, "
+                  f"the sibling controllers compute {maj if maj is not None else 'different values (no majority)'}",
+                  x['cls'].lineno)
+        else:
+            r.ok(x['mod'], x['t']['cls'], cons, note=f"agrees with {len(ctrls) // len(NS_CTRL) - 1} siblings")
+    # (2) 1-entry queues of one kind across the families
+    for kind in KINDS:
+        rel_tab = {}
+        ones = [x for x in recs if x['t']['level'] == 'one' and x['kind'] == kind.lower()]
+        for x in ones:
+            name = (x['t']['rel'], x['t']['cls'])
+            if x['err'] or x['nl'] is None:
+                r.bad(x['mod'], x['t']['cls'], 'elaboration', str(x['err']), x['cls'].lineno)
+                continue
+            nl, enc, fam = x['nl'], x['enc'], x['fam']
+            sig = {k: nl.lookup(p) for k, p in fam.top.items() if k in ('offer', 'enq_rdy', 'deq_in', 'deq_avail', 'deq_en',
+                                                                     'enq_msg')}
+            rel = set()
+            for st in enc.states():
+                for offer, deq_in in itertools.product((0, 1), repeat=2):
+                    inputs = {sig['offer']: BV(offer, 1), sig['deq_in']: BV(deq_in, 1), sig['enq_msg']: NEW}
+                    sim = Sim(nl, st.regs, inputs, 0)
+                    r.evaluations += 1
+                    try:
+                        er = _v(sim.read(sig['enq_rdy']))
+                        if fam.enq_style == 'en' and offer and not er:
+                            continue        # illegal offer for this implementation
+                        ex = offer if fam.enq_style == 'en' else (offer & er)
+                        if fam.deq_style == 'drive':
+                            dx = _v(sim.read(sig['deq_en']))
+                        else:
+                            av = _v(sim.read(sig['deq_avail']))
+                            if fam.deq_style == 'callee' and deq_in and not av:
+                                continue
+                            dx = deq_in if fam.deq_style == 'callee' else (deq_in & av)
+                        f2 = sim.step()[enc.full].v
+                        rel.add((st.count, ex, dx, f2))
+                    except ModelFault as e:
+                        rel.add(('fault', str(e)))
+            rel_tab[name] = frozenset(rel)
+        maj, odd = _majority(rel_tab)
+        for x in ones:
+            name = (x['t']['rel'], x['t']['cls'])
+            if name not in rel_tab:
+                continue
+            cons = f"{kind.lower()} 1-entry transition relation (full, enq_xfer, deq_xfer, full')"
+            if name in odd:
+                diff = sorted(rel_tab[name] ^ maj, key=str) if maj is not None else sorted(rel_tab[name], key=str)
+                r.bad(x['mod'], x['t']['cls'], cons,
+                      f"transition relation differs from the sibling {kind.lower()} queues of the other interface families "
+                      f"in the tuples {diff[:4]}", x['cls'].lineno)
+            else:
+                r.ok(x['mod'], x['t']['cls'], cons, note=f"{len(rel_tab[name])} transitions, {len(rel_tab)} families")
+    r.require_floor(16)
+    return r
+
+
+# ---------------------------------------------------------------------------
+# cycle-level queues
+from sa.minieval import Obj, Raised        # noqa: E402
+
+CL_REQUIRED = {
+    'pipe': {('M:deq', 'M:enq'), ('M:peek', 'M:enq')},
+    'bypass': {('M:enq', 'M:deq'), ('M:enq', 'M:peek')},
+    'normal': {('U:pulse', 'M:enq.rdy'), ('U:pulse', 'M:deq.rdy'), ('M:peek', 'M:deq.rdy'), ('M:peek', 'M:enq.rdy')},
+}
+CL_GUARD_SPEC = {'enq': ('len < maxlen', lambda L, M: L < M), 'deq': ('len > 0', lambda L, M: L > 0),
+                 'peek': ('len > 0', lambda L, M: L > 0)}
+
+
+def _cl_guard(func):
+    """the guard expression of a @non_blocking( lambda s: ... ) method: (param name, body)"""
+    for d in func.decorator_list:
+        if isinstance(d, ast.Call) and norm(d.func) == 'non_blocking' and len(d.args) == 1 and not d.keywords:
+            g = d.args[0]
+            if isinstance(g, ast.Lambda) and len(g.args.args) == 1:
+                return g.args.args[0].arg, g.body
+            raise AnalysisError(f"guard of {func.name} is not a one-parameter lambda")
+    return None
+
+
+def _cl_term(e, selfname, pulse_name):
+    """'M:enq' / 'M:enq.rdy' / 'U:pulse' for M( s.enq ) / M( s.enq.rdy ) / U( up_pulse )"""
+    if isinstance(e, ast.Call) and isinstance(e.func, ast.Name) and len(e.args) == 1 and not e.keywords:
+        a = e.args[0]
+        if e.func.id == 'M':
+            t = norm(a)
+            if t.startswith(selfname + '.'):
+                return 'M:' + t[len(selfname) + 1:]
+        if e.func.id == 'U' and isinstance(a, ast.Name):
+            return 'U:pulse' if a.id == pulse_name else 'U:' + a.id
+    raise AnalysisError(f"constraint term outside the model: {norm(e)}")
+
+
+def rule_cl(repo):
+    r = RuleResult('R-C17-cl', "cycle-level queues: enq guard len < maxlen, deq/peek guard len > 0 (evaluated over small "
+                               "integers), enq and deq on opposite ends of the deque, peek on the deq end, capacity = "
+                               "num_entries, method-order constraints of the kind")
+    m = repo.mod(CLQ)
+    for cname in ('PipeQueueCL', 'BypassQueueCL', 'NormalQueueCL'):
+        kind = kind_of(cname)
+        cls = m.get_class(cname)
+        meths = m.methods(cname)
+        for need in ('construct', 'enq', 'deq', 'peek'):
+            if need not in meths:
+                raise AnalysisError(f"anchor vanished: {cname}.{need}")
+        con = meths['construct']
+        me = con.args.args[0].arg
+        # -- capacity
+        qattr, cap = None, None
+        for st in walk_no_nested(con):
+            if isinstance(st, ast.Assign) and isinstance(st.value, ast.Call) and norm(st.value.func) in ('deque', 'collections.deque'):
+                for t in st.targets:
+                    if isinstance(t, ast.Attribute) and norm(t.value) == me:
+                        qattr = t.attr
+                        kw = [k.value for k in st.value.keywords if k.arg == 'maxlen']
+                        cap = kw[0] if kw else (st.value.args[1] if len(st.value.args) > 1 else None)
+                        capst = st
+        if qattr is None:
+            raise AnalysisError(f"anchor vanished: {cname}.construct does not create a deque")
+        params = [a.arg for a in con.args.args[1:]]
+        if cap is None:
+            r.bad(m, f"{cname}.construct", norm(capst), "the deque is unbounded: the queue never becomes full", capst.lineno)
+        else:
+            okc = len(params) == 1
+            if okc:
+                for k in range(1, 5):
+                    r.evaluations += 1
+                    try:
+                        okc = okc and Evaluator({params[0]: k}, arith=True).ev(cap) == k
+                    except AnalysisError:
+                        okc = False
+            if okc:
+                r.ok(m, f"{cname}.construct", f"capacity: {norm(capst)}")
+            else:
+                r.bad(m, f"{cname}.construct", f"capacity: {norm(capst)}",
+                      f"the deque capacity `{norm(cap)}` is not the num_entries parameter", capst.lineno)
+        # -- rdy pulses of the normal queue (plain assignments inside an @update block of construct)
+        pulses, pulse_name = {}, None
+        for fn in con.body:
+            if isinstance(fn, ast.FunctionDef) and [norm(d) for d in fn.decorator_list] == ['update']:
+                for st in fn.body:
+                    if isinstance(st, ast.Assign) and len(st.targets) == 1 and isinstance(st.targets[0], ast.Attribute) \
+                            and norm(st.targets[0].value) == me:
+                        pulses[st.targets[0].attr] = st.value
+                        pulse_name = fn.name
+                    elif not (isinstance(st, ast.Expr) and isinstance(st.value, ast.Constant)):
+                        raise AnalysisError(f"{cname}.construct.{fn.name}: statement outside the model: {norm(st)[:60]}")
+        # -- guards
+        for meth, (txt, spec) in CL_GUARD_SPEC.items():
+            f = meths[meth]
+            g = _cl_guard(f)
+            if g is None:
+                r.bad(m, f"{cname}.{meth}", 'guard', f"{meth} has no @non_blocking guard: it can be called on a "
+                      f"{'full' if meth == 'enq' else 'empty'} queue", f.lineno)
+                continue
+            pname, body = g
+            bad = None
+            for M in (1, 2, 3):
+                for L in range(M + 1):
+                    q = Obj('deque', maxlen=M, _len=L)
+                    selfobj = Obj('queue', **{qattr: q})
+                    funcs = {'len': lambda o: o.fields['_len'] if isinstance(o, Obj) and o.tag == 'deque' else
+                             (_ for _ in ()).throw(AnalysisError('len() of a non-deque'))}
+                    try:
+                        for pa, pe in pulses.items():
+                            selfobj.fields[pa] = bool(Evaluator({me: selfobj}, arith=True, funcs=funcs).ev(pe))
+                        r.evaluations += 1
+                        got = bool(Evaluator({pname: selfobj}, arith=True, funcs=funcs).ev(body))
+                    except Raised as ex:
+                        raise AnalysisError(f"{cname}.{meth}: guard reads an unknown attribute ({ex.what})")
+                    if got != spec(L, M) and bad is None:
+                        bad = (L, M, got)
+            cons = f"guard {norm(body)}" + (f" with {', '.join(f'{k} = {norm(v)}' for k, v in sorted(pulses.items()))}"
+                                            if any(isinstance(n, ast.Attribute) and n.attr in pulses for n in ast.walk(body)) else '')
+            if bad:
+                L, M, got = bad
+                r.bad(m, f"{cname}.{meth}", cons, f"with {L} of {M} entries occupied the guard is {got}; {meth} must be "
+                      f"ready iff {txt}", f.lineno)
+            else:
+                r.ok(m, f"{cname}.{meth}", cons)
+        # -- FIFO ends: abstract execution of the three bodies on a two-element deque
+        def q_of(e, f):
+            return isinstance(e, ast.Attribute) and e.attr == qattr and norm(e.value) == f.args.args[0].arg
+
+        def run(f, L, arg=None):
+            """returns (list after, returned value)"""
+            body = [s for s in f.body if not (isinstance(s, ast.Expr) and isinstance(s.value, ast.Constant))]
+            if len(body) != 1:
+                raise AnalysisError(f"{cname}.{f.name}: body outside the model")
+            st = body[0]
+            e = st.value if isinstance(st, (ast.Expr, ast.Return)) else None
+            if isinstance(e, ast.Call) and isinstance(e.func, ast.Attribute) and q_of(e.func.value, f) and not e.keywords:
+                op = e.func.attr
+                if op in ('append', 'appendleft') and len(e.args) == 1 and isinstance(e.args[0], ast.Name) \
+                        and len(f.args.args) == 2 and e.args[0].id == f.args.args[1].arg and isinstance(st, ast.Expr):
+                    return ([arg] + L if op == 'appendleft' else L + [arg]), None
+                if op in ('pop', 'popleft') and not e.args and isinstance(st, ast.Return):
+                    return (L[:-1], L[-1]) if op == 'pop' else (L[1:], L[0])
+            if isinstance(e, ast.Subscript) and q_of(e.value, f) and isinstance(st, ast.Return):
+                try:
+                    i = ast.literal_eval(e.slice)
+                except Exception:
+                    i = None
+                if isinstance(i, int):
+                    return L, L[i]
+            raise AnalysisError(f"{cname}.{f.name}: statement outside the model: {norm(st)[:70]}")
+        L0, _ = run(meths['enq'], [], 'A')
+        L1, _ = run(meths['enq'], L0, 'B')
+        _, pk = run(meths['peek'], L1)
+        L2, d1 = run(meths['deq'], L1)
+        _, pk2 = run(meths['peek'], L2) if L2 else (None, None)
+        L3, d2 = run(meths['deq'], L2) if L2 else (None, None)
+        r.evaluations += 6
+        cons = f"enq: {norm(meths['enq'].body[-1])}; deq: {norm(meths['deq'].body[-1])}; peek: {norm(meths['peek'].body[-1])}"
+        if (d1, d2) != ('A', 'B') or sorted(L1) != ['A', 'B'] or L3 != []:
+            r.bad(m, f"{cname}.deq", cons, f"after enq(A), enq(B) the dequeue order is ({d1}, {d2}): enq and deq must work on "
+                  f"opposite ends of the deque (first in, first out)", meths['deq'].lineno)
+        elif (pk, pk2) != ('A', 'B'):
+            r.bad(m, f"{cname}.peek", cons, f"peek returns {pk} where the next deq returns A: peek must look at the deq end",
+                  meths['peek'].lineno)
+        else:
+            r.ok(m, cname, cons)
+        # -- method-order constraints
+        pairs = set()
+        calls = [n for n in walk_no_nested(con) if isinstance(n, ast.Call) and isinstance(n.func, ast.Attribute)
+                 and n.func.attr == 'add_constraints' and norm(n.func.value) == me]
+        for c in calls:
+            for a in c.args:
+                if not (isinstance(a, ast.Compare) and len(a.ops) == 1 and isinstance(a.ops[0], (ast.Lt, ast.Gt))):
+                    raise AnalysisError(f"{cname}: constraint outside the model: {norm(a)}")
+                x, y = _cl_term(a.left, me, pulse_name), _cl_term(a.comparators[0], me, pulse_name)
+                pairs.add((x, y) if isinstance(a.ops[0], ast.Lt) else (y, x))
+        for before, after in sorted(CL_REQUIRED[kind]):
+            cons = f"constraint {before} < {after}"
+            if (after, before) in pairs:
+                r.bad(m, f"{cname}.construct", cons, f"the constraint is reversed ({after} before {before}): a {kind} queue "
+                      f"needs {before} to run before {after} within a cycle", con.lineno)
+            elif (before, after) not in pairs:
+                r.bad(m, f"{cname}.construct", cons, f"missing: without it the scheduler may run {after} before {before} and "
+                      f"the queue does not show {kind} same-cycle behaviour", con.lineno)
+            else:
+                r.ok(m, f"{cname}.construct", cons)
+        for a, b in sorted(pairs):
+            if (b, a) in pairs and a < b:
+                r.bad(m, f"{cname}.construct", f"constraints {a} < {b} and {b} < {a}", "contradictory constraints", con.lineno)
+        # the opposite-kind constraint must not be present (a pipe queue must not also let enq run before deq)
+        forbidden = {'pipe': ('M:enq', 'M:deq'), 'bypass': ('M:deq', 'M:enq')}.get(kind)
+        if forbidden and forbidden in pairs and (forbidden[1], forbidden[0]) not in pairs:
+            r.bad(m, f"{cname}.construct", f"constraint {forbidden[0]} < {forbidden[1]}",
+                  f"this ordering gives the queue the same-cycle behaviour of the other kind, not of a {kind} queue", con.lineno)
+    r.require_floor(22)
+    return r
+
+
+RULES = [rule_rdy, rule_count, rule_step, rule_siblings, rule_cl]
+
+# ---------------------------------------------------------------------------
+# self-test of the checker (thorough tier)
+def _m(name, file, old, new, rule=None, count=1):
+    return dict(name=name, file=file, old=old, new=new, rule=rule, count=count)
+
+
+MUTANTS = [
+    # -- stdlib/queues/queues.py: n-entry controllers
+    _m('q-normal-enq-rdy-le', Q, "s.enq_rdy //= lambda: ~s.reset & ( s.count < s.num_entries )",
+       "s.enq_rdy //= lambda: ~s.reset & ( s.count <= s.num_entries )", 'R-C17-rdy', 'first'),
+    _m('q-pipe-enq-rdy-no-deq', Q, "( ( s.count < s.num_entries ) | s.deq_en )", "( s.count < s.num_entries )", 'R-C17-rdy'),
+    _m('q-pipe-enq-rdy-wrong-input', Q, "( s.count < s.num_entries ) | s.deq_en )", "( s.count < s.num_entries ) | s.enq_en )",
+       'R-C17-rdy'),
+    _m('q-bypass-deq-rdy-no-enq', Q, "( (s.count > CountType(0) ) | s.enq_en )", "(s.count > CountType(0) )", 'R-C17-rdy'),
+    _m('q-normal-deq-rdy-ungated', Q, "s.deq_rdy //= lambda: ~s.reset & ( s.count > CountType(0) )",
+       "s.deq_rdy //= lambda: ( s.count > CountType(0) )", 'R-C17-rdy', 'first'),
+    _m('q-normal-deq-rdy-ge', Q, "s.deq_rdy //= lambda: ~s.reset & ( s.count > CountType(0) )",
+       "s.deq_rdy //= lambda: ~s.reset & ( s.count >= CountType(0) )", 'R-C17-rdy', 'first'),
+    _m('q-head-wrap-off-by-one', Q, "s.head <<= s.head + PtrType(1) if s.head < s.last_idx else PtrType(0)",
+       "s.head <<= s.head + PtrType(1) if s.head <= s.last_idx else PtrType(0)", 'R-C17-count', 'first'),
+    _m('q-tail-advances-on-deq', Q, "        if s.enq_xfer:\n          s.tail", "        if s.deq_xfer:\n          s.tail",
+       'R-C17-count', 'first'),
+    _m('q-count-dec-on-any-deq', Q, "        if ~s.enq_xfer & s.deq_xfer:", "        if s.deq_xfer:", 'R-C17-count', 'first'),
+    _m('q-reset-forgets-count', Q, "s.tail  <<= PtrType(0)\n        s.count <<= CountType(0)", "s.tail  <<= PtrType(0)",
+       'R-C17-count', 'first'),
+    _m('q-waddr-is-head', Q, "connect( s.waddr, s.tail     )", "connect( s.waddr, s.head     )", 'R-C17-count', 'first'),
+    _m('q-wen-is-deq-xfer', Q, "connect( s.wen,   s.enq_xfer )", "connect( s.wen,   s.deq_xfer )", 'R-C17-count', 'first'),
+    _m('q-enq-xfer-or', Q, "s.enq_xfer //= lambda: s.enq_en & s.enq_rdy", "s.enq_xfer //= lambda: s.enq_en | s.enq_rdy",
+       'R-C17-count', 'first'),
+    _m('q-bypass-mux-sel-polarity', Q, "s.mux_sel //= lambda: s.count == CountType(0)",
+       "s.mux_sel //= lambda: s.count != CountType(0)", 'R-C17-count'),
+    # -- queues.py: 1-entry queues
+    _m('q-normal1-full-ignores-deq', Q, "s.full <<= ~s.reset & ( ~s.deq.en & (s.enq.en | s.full) )",
+       "s.full <<= ~s.reset & ( s.enq.en | s.full )", 'R-C17-count', 'first'),
+    _m('q-pipe1-enq-rdy-no-deq', Q, "s.enq.rdy //= lambda: ~s.reset & ( ~s.full | s.deq.en )",
+       "s.enq.rdy //= lambda: ~s.reset & ~s.full", 'R-C17-rdy'),
+    _m('q-pipe1-full-precedence', Q, "( s.enq.en | s.full & ~s.deq.en )", "( (s.enq.en | s.full) & ~s.deq.en )", 'R-C17-count'),
+    _m('q-bypass1-entry-write-cond', Q, "      if s.enq.en & ~s.deq.en:\n        s.entry", "      if s.enq.en & s.deq.en:\n        s.entry",
+       'R-C17-step'),
+    _m('q-bypass1-mux-swapped', Q, "m.in_[0] //= s.enq.msg\n    m.in_[1] //= s.entry", "m.in_[1] //= s.enq.msg\n    m.in_[0] //= s.entry",
+       'R-C17-step'),
+    _m('q-bypass1-deq-rdy-no-enq', Q, "s.deq.rdy //= lambda: ~s.reset & ( s.full | s.enq.en )",
+       "s.deq.rdy //= lambda: ~s.reset & s.full", 'R-C17-rdy'),
+    # -- queues.py: wrappers and data path
+    _m('q-pipe-wrapper-wrong-1entry', Q, "s.q = PipeQueue1EntryRTL( EntryType )", "s.q = NormalQueue1EntryRTL( EntryType )",
+       'R-C17-step'),
+    _m('q-wrapper-addr-crossed', Q, "connect( s.ctrl.waddr,   s.dpath.waddr   )\n      connect( s.ctrl.raddr,   s.dpath.raddr   )",
+       "connect( s.ctrl.waddr,   s.dpath.raddr   )\n      connect( s.ctrl.raddr,   s.dpath.waddr   )", 'R-C17-step', 'first'),
+    _m('q-bypass-wrapper-no-mux-sel', Q, "      connect( s.ctrl.mux_sel, s.dpath.mux_sel )\n", "", 'R-C17-step'),
+    _m('q-bypass-dpath-mux-swapped', Q, "m.in_[0] //= s.queue.rdata[0]\n    m.in_[1] //= s.enq_msg",
+       "m.in_[1] //= s.queue.rdata[0]\n    m.in_[0] //= s.enq_msg", 'R-C17-step'),
+    _m('q-wrapper-en-crossed', Q, "connect( s.enq.en,  s.ctrl.enq_en   )\n      connect( s.enq.rdy, s.ctrl.enq_rdy  )\n      connect( s.deq.en,  s.ctrl.deq_en   )",
+       "connect( s.enq.en,  s.ctrl.deq_en   )\n      connect( s.enq.rdy, s.ctrl.enq_rdy  )\n      connect( s.deq.en,  s.ctrl.enq_en   )",
+       'R-C17-step', 'first'),
+    # -- stdlib/stream/queues.py
+    _m('st-normal-recv-rdy-le', ST, "s.recv_rdy  //= lambda: s.count < num_entries", "s.recv_rdy  //= lambda: s.count <= num_entries",
+       'R-C17-rdy'),
+    _m('st-pipe-recv-rdy-and', ST, "( s.count < num_entries ) | s.send_rdy", "( s.count < num_entries ) & s.send_rdy", 'R-C17-rdy'),
+    _m('st-bypass-send-val-no-recv', ST, "s.send_val //= lambda: (s.count > 0) | s.recv_val", "s.send_val //= lambda: (s.count > 0)",
+       'R-C17-rdy'),
+    _m('st-tail-wrap-late', ST, "s.tail <<= s.tail + 1 if ( s.tail < num_entries - 1 ) else 0",
+       "s.tail <<= s.tail + 1 if ( s.tail < num_entries ) else 0", 'R-C17-count', 'first'),
+    _m('st-count-dec-on-any-send', ST, "        elif ~s.recv_xfer & s.send_xfer:", "        elif s.send_xfer:", 'R-C17-count', 'first'),
+    _m('st-normal1-full-ignores-rdy', ST, "s.full <<= (s.recv.val & ~s.full) | (s.full & ~s.send.rdy)",
+       "s.full <<= s.recv.val | (s.full & ~s.send.rdy)", 'R-C17-count'),
+    _m('st-normal1-entry-overwritten', ST, "      if s.recv.val & ~s.full:\n        s.entry", "      if s.recv.val:\n        s.entry",
+       'R-C17-step'),
+    _m('st-pipe1-recv-rdy-and', ST, "s.recv.rdy //= lambda: s.send.rdy | ~s.full", "s.recv.rdy //= lambda: s.send.rdy & ~s.full",
+       'R-C17-rdy'),
+    _m('st-bypass1-send-val-no-recv', ST, "s.send.val //= lambda: s.full | s.recv.val", "s.send.val //= lambda: s.full", 'R-C17-rdy'),
+    _m('st-bypass1-full-loses', ST, "s.full <<= ~s.send.rdy & (s.full | s.recv.val)", "s.full <<= ~s.send.rdy & s.recv.val",
+       'R-C17-count'),
+    _m('st-bypass-dpath-no-bypass', ST, "m.in_[1] //= s.recv_msg", "m.in_[1] //= s.rf.rdata[0]", 'R-C17-step'),
+    _m('st-reset-sets-full', ST, "      if s.reset:\n        s.full <<= 0", "      if s.reset:\n        s.full <<= 1", 'R-C17-count', 'first'),
+    # -- stdlib/queues/enrdy_queues.py
+    _m('en-pipe1-enq-rdy-no-deq', EN, "s.enq.rdy @= ~s.full.out | s.deq.rdy", "s.enq.rdy @= ~s.full.out", 'R-C17-rdy'),
+    _m('en-pipe1-full-sticky', EN, "s.full.in_ @= s.enq.en | (s.full.out & ~s.deq.rdy )", "s.full.in_ @= s.enq.en | s.full.out",
+       'R-C17-count'),
+    _m('en-bypass1-deq-en-no-bypass', EN, "s.deq.en    @= (s.enq.en | s.full.out) & s.deq.rdy", "s.deq.en    @= s.full.out & s.deq.rdy",
+       'R-C17-rdy'),
+    _m('en-bypass1-buffer-en', EN, "s.buffer.en @=  s.enq.en & ~s.deq.en", "s.buffer.en @=  s.enq.en & s.deq.en", 'R-C17-step'),
+    _m('en-bypass1-reset-value', EN, "RegRst( Bits1, reset_value = 0 )", "RegRst( Bits1, reset_value = 1 )", 'R-C17-count'),
+    _m('en-normal1-full-term', EN, "(~s.deq.rdy & s.full.out)", "(s.deq.rdy & s.full.out)", 'R-C17-count'),
+    _m('en-normal1-deq-en-always', EN, "s.deq.en @= s.full.out & s.deq.rdy", "s.deq.en @= s.deq.rdy", 'R-C17-rdy'),
+    # -- registers / register file / mux used by the queues
+    _m('regen-ignores-en', REGS, "      if s.en:\n        s.out <<= s.in_", "      s.out <<= s.in_", 'R-C17-step'),
+    _m('regrst-polarity', REGS, "if s.reset: s.out <<= reset_value\n      else:       s.out <<= s.in_",
+       "if ~s.reset: s.out <<= reset_value\n      else:       s.out <<= s.in_", 'R-C17'),
+    _m('rf-write-enable-inverted', RF, "          if s.wen[i]:\n            s.regs[ s.waddr[i] ] <<= s.wdata[i]",
+       "          if ~s.wen[i]:\n            s.regs[ s.waddr[i] ] <<= s.wdata[i]", 'R-C17-step', 'first'),
+    _m('rf-read-uses-waddr', RF, "s.rdata[i] @= s.regs[ s.raddr[i] ]", "s.rdata[i] @= s.regs[ s.waddr[i] ]", 'R-C17-step', 'first'),
+    _m('mux-select-inverted', ARITH, "s.out @= s.in_[ s.sel ]", "s.out @= s.in_[ ~s.sel ]", 'R-C17-step'),
+    # -- stdlib/queues/valrdy_queues.py
+    _m('vr-full-next-ignores-deq', VR, "s.full_next_cycle @= s.do_enq & ~s.do_deq & (s.enq_ptr_next == s.deq_ptr)",
+       "s.full_next_cycle @= s.do_enq & (s.enq_ptr_next == s.deq_ptr)", 'R-C17-count'),
+    _m('vr-empty-ignores-full', VR, "s.empty   @= ~s.full & (s.enq_ptr == s.deq_ptr)", "s.empty   @= (s.enq_ptr == s.deq_ptr)",
+       'R-C17-rdy'),
+    _m('vr-pipe1-next-full', VR, "s.next_full @= s.enq.val | (s.full & ~s.deq.rdy)", "s.next_full @= s.enq.val & (s.full & ~s.deq.rdy)",
+       'R-C17-count'),
+    _m('vr-bypass1-deq-val', VR, "s.deq.val @= s.full | s.enq.val", "s.deq.val @= s.full", 'R-C17-rdy'),
+    _m('vr-free-entries', VR, "s.num_free_entries @= zext( s.deq_ptr - s.enq_ptr, SizeType )",
+       "s.num_free_entries @= zext( s.enq_ptr - s.deq_ptr, SizeType )", 'R-C17-count'),
+    # -- stdlib/queues/cl_queues.py
+    _m('cl-pipe-enq-guard-le', CLQ, "lambda s: len( s.queue ) < s.queue.maxlen", "lambda s: len( s.queue ) <= s.queue.maxlen",
+       'R-C17-cl', 'first'),
+    _m('cl-pipe-deq-guard-ge', CLQ, "@non_blocking( lambda s: len( s.queue ) > 0 )\n  def deq",
+       "@non_blocking( lambda s: len( s.queue ) >= 0 )\n  def deq", 'R-C17-cl', 'first'),
+    _m('cl-bypass-constraint-reversed', CLQ, "M( s.enq    ) < M( s.deq     ),", "M( s.enq    ) > M( s.deq     ),", 'R-C17-cl'),
+    _m('cl-pipe-constraint-dropped', CLQ, "M( s.peek   ) < M( s.enq  ),\n      M( s.deq    ) < M( s.enq  )",
+       "M( s.peek   ) < M( s.enq  ),", 'R-C17-cl'),
+    _m('cl-enq-same-end', CLQ, "s.queue.appendleft( msg )", "s.queue.append( msg )", 'R-C17-cl', 'first'),
+    _m('cl-deq-same-end', CLQ, "return s.queue.pop()", "return s.queue.popleft()", 'R-C17-cl', 'first'),
+    _m('cl-peek-wrong-end', CLQ, "return s.queue[-1]", "return s.queue[0]", 'R-C17-cl', 'first'),
+    _m('cl-normal-pulse-ge', CLQ, "s.deq_rdy = len( s.queue ) > 0", "s.deq_rdy = len( s.queue ) >= 0", 'R-C17-cl'),
+    _m('cl-normal-pulse-constraint-reversed', CLQ, "U( up_pulse ) < M( s.enq.rdy ),", "U( up_pulse ) > M( s.enq.rdy ),", 'R-C17-cl'),
+    _m('cl-capacity-plus-one', CLQ, "deque( maxlen=num_entries )", "deque( maxlen=num_entries+1 )", 'R-C17-cl', 'first'),
+    _m('cl-normal-enq-uses-deq-pulse', CLQ, "@non_blocking( lambda s: s.enq_rdy )", "@non_blocking( lambda s: s.deq_rdy )", 'R-C17-cl'),
+]
+
+EQUIV = [
+    _m('q-rdy-operands-swapped', Q, "~s.reset & ( s.count < s.num_entries )", "( s.count < s.num_entries ) & ~s.reset", None, 'first'),
+    _m('q-nonzero-as-ne', Q, "s.count > CountType(0)", "s.count != CountType(0)", None, 'first'),
+    _m('q-not-full-as-ne', Q, "( s.count < s.num_entries )", "( s.count != s.num_entries )", None, 'first'),
+    _m('q-wrap-eq-form', Q, "s.head + PtrType(1) if s.head < s.last_idx else PtrType(0)",
+       "PtrType(0) if s.head == s.last_idx else s.head + PtrType(1)", None, 'first'),
+    _m('q-count-elif', Q, "        if ~s.enq_xfer & s.deq_xfer:", "        elif ~s.enq_xfer & s.deq_xfer:", None, 'first'),
+    _m('q-connect-args-swapped', Q, "connect( s.waddr, s.tail     )", "connect( s.tail, s.waddr )", None, 'first'),
+    _m('q-connect-as-floordiv', Q, "connect( s.raddr, s.head     )", "s.raddr //= s.head", None, 'first'),
+    _m('q-lambda-as-update-block', Q, "    s.enq_xfer //= lambda: s.enq_en & s.enq_rdy\n",
+       "    @update\n    def up_enq_xfer():\n      s.enq_xfer @= s.enq_en & s.enq_rdy\n", None, 'first'),
+    _m('q-1entry-full-reassociated', Q, "~s.reset & ( ~s.deq.en & (s.enq.en | s.full) )",
+       "( (s.enq.en | s.full) & ~s.deq.en ) & ~s.reset", None, 'first'),
+    _m('q-wrapper-le-1', Q, "    if num_entries == 1:", "    if num_entries <= 1:", None, 'first'),
+    _m('q-reset-last-assignment-wins', Q,
+       "      if s.reset:\n        s.head  <<= PtrType(0)\n        s.tail  <<= PtrType(0)\n        s.count <<= CountType(0)\n\n      else:\n"
+       "        if s.deq_xfer:\n          s.head <<= s.head + PtrType(1) if s.head < s.last_idx else PtrType(0)\n\n"
+       "        if s.enq_xfer:\n          s.tail <<= s.tail + PtrType(1) if s.tail < s.last_idx else PtrType(0)\n\n"
+       "        if s.enq_xfer & ~s.deq_xfer:\n          s.count <<= s.count + CountType(1)\n"
+       "        if ~s.enq_xfer & s.deq_xfer:\n          s.count <<= s.count - CountType(1)\n",
+       "      if s.deq_xfer:\n        s.head <<= s.head + PtrType(1) if s.head < s.last_idx else PtrType(0)\n"
+       "      if s.enq_xfer:\n        s.tail <<= s.tail + PtrType(1) if s.tail < s.last_idx else PtrType(0)\n"
+       "      if s.enq_xfer & ~s.deq_xfer:\n        s.count <<= s.count + CountType(1)\n"
+       "      if ~s.enq_xfer & s.deq_xfer:\n        s.count <<= s.count - CountType(1)\n"
+       "      if s.reset:\n        s.head  <<= PtrType(0)\n        s.tail  <<= PtrType(0)\n        s.count <<= CountType(0)\n",
+       None, 'first'),
+    _m('st-not-full-as-ne', ST, "s.recv_rdy  //= lambda: s.count < num_entries", "s.recv_rdy  //= lambda: s.count != num_entries"),
+    _m('st-1entry-reset-last', ST,
+       "      if s.reset:\n        s.full <<= 0\n      else:\n        s.full <<= (s.recv.val & ~s.full) | (s.full & ~s.send.rdy)\n",
+       "      s.full <<= (s.recv.val & ~s.full) | (s.full & ~s.send.rdy)\n      if s.reset:\n        s.full <<= 0\n"),
+    _m('st-wrap-helper-constant', ST, "s.tail <<= s.tail + 1 if ( s.tail < num_entries - 1 ) else 0",
+       "s.tail <<= 0 if ( s.tail >= num_entries - 1 ) else s.tail + 1", None, 'first'),
+    _m('en-normal1-full-simplified', EN,
+       "s.full.in_ @= (~s.full.out & s.enq.en) | \\\n                    (~s.deq.rdy & s.enq.en)  | \\\n                    (~s.deq.rdy & s.full.out)",
+       "s.full.in_ @= s.enq.en | (~s.deq.rdy & s.full.out)"),
+    _m('en-bypass1-reordered', EN, "s.deq.en    @= (s.enq.en | s.full.out) & s.deq.rdy", "s.deq.en    @= s.deq.rdy & (s.full.out | s.enq.en)"),
+    _m('vr-not-full-as-compare', VR, "s.enq_rdy @= ~s.full\n      s.deq_val", "s.enq_rdy @= s.full == 0\n      s.deq_val"),
+    _m('cl-guard-ge-1', CLQ, "@non_blocking( lambda s: len( s.queue ) > 0 )\n  def deq", "@non_blocking( lambda s: len( s.queue ) >= 1 )\n  def deq",
+       None, 'first'),
+    _m('cl-constraint-as-gt', CLQ, "M( s.deq    ) < M( s.enq  )", "M( s.enq  ) > M( s.deq    )"),
+    dict(name='cl-ends-switched-consistently', edits=[
+        dict(file=CLQ, old="s.queue.appendleft( msg )", new="s.queue.append( msg )", count='first'),
+        dict(file=CLQ, old="return s.queue.pop()", new="return s.queue.popleft()", count='first'),
+        dict(file=CLQ, old="return s.queue[-1]", new="return s.queue[0]", count='first')]),
+]
+
+LEVEL_TEXT = ("Static analysis of the queue sources: every RTL queue / controller class is parsed, its construct is turned into a "
+              "netlist model (connections, //= lambda drivers, @update / @update_ff blocks, sub-components resolved statically) "
+              "and the extracted equations are evaluated for one cycle by an abstract evaluator over an exhaustively enumerated "
+              "abstract state (reset x every representation-consistent register valuation for capacities 1..4 x every "
+              "protocol-legal offer, messages as opaque tokens) and compared with the FIFO specification of the queue kind: "
+              "ready/valid equations, occupancy and pointer updates, delivered message and stored sequence after the edge "
+              "(which also decides the wrapper / data-path wiring); the cycle-level queues are decided structurally (guards over "
+              "small integers, deque ends, method-order constraints); sibling copies are compared with each other. It covers all "
+              "boundary cases (full/empty, simultaneous enq/deq, non-power-of-two wrap, reset) of the one-step relation, which the "
+              "example-based tests do not; it does not execute pymtl3 and does not decide FIFO order over arbitrary histories "
+              "or capacities.")
+LEVEL_NOTE = ("Trusted: Bits semantics (C04), schedule independence of combinational blocks (C02), flip-flop semantics (C07), data "
+              "independence of the data path, small-scope hypothesis n <= 4, environments obey en => rdy. Not decided: histories, "
+              "CL timing under a concrete schedule, interface adapters, mid-run reset of the 1-entry en/rdy and val/rdy Normal/Pipe "
+              "queues (no reset on the full bit). Known finding: BypassQueue2RTL.enq.rdy is low with one of two entries occupied. "
+              "valrdy_queues.py cannot be imported today (dead code) but is analysed.")
+TECHNIQUE = ("ast extraction of a netlist from construct (connect / //= / lambdas / update blocks, static instantiation through the "
+             "loader), finite abstract one-cycle evaluation (bit vectors + opaque tokens) over enumerated representation-consistent "
+             "states, comparison with a per-kind FIFO step specification, structural analysis of the CL queues, sibling agreement")
+
